@@ -349,8 +349,8 @@ def validate_oracle(primes):
 
 
 def main(ctx):
-    full = ctx.pick([5, 7, 11, 13], [5, 7, 11, 13])
-    part = ctx.pick([17], [17, 19, 23])
+    full = ctx.pick([5, 7, 11, 13], [5, 7, 11, 13, 17])
+    part = ctx.pick([17], [19, 23, 29, 31])
     validate_oracle(full + part)
     jobs = []
     for p in full:
